@@ -76,6 +76,7 @@ type fnVC struct {
 	tuples map[ssa.Value][]T
 	usedContracts map[string]bool
 	havocked bool
+	usesRV   bool // the contract speaks about reflect storage (rvver): the ghost memory RV is tracked
 	seq int
 	unguarded bool
 	grounded map[string]bool
@@ -358,7 +359,7 @@ func (v *fnVC) loopFrame(mems []string) {
 		if strings.HasPrefix(k, "MD_") || strings.HasPrefix(k, "MV_") {
 			alts = altsM
 		}
-		if strings.HasPrefix(k, "L_") || k == allocMem || k == deferMem || k == visMem {
+		if strings.HasPrefix(k, "L_") || k == allocMem || k == deferMem || k == visMem || k == rvMem {
 			continue
 		}
 		nm, ok := v.cur[k]
